@@ -53,6 +53,9 @@ CPP_STDS = ["c++14", "c++17", "c++20", "c++17-pmr"]
 CETL = "cetl++14-17"
 SERS = ["on", "omit"]
 NO_STRINGOP = ["-Wno-stringop-overflow"]  # add_compile_options("$<$<C_COMPILER_ID:GNU>:-Wno-stringop-overflow>")
+# clang's default expression nesting limit (256) is an implementation limit, not a diagnostic: libstdc++'s std::variant folds
+# over all alternatives, so a 257-option union needs a deeper limit (gcc has none). Raising it relaxes no warning.
+CLANG_LIMITS = ["-fbracket-depth=2048"]
 C_IN_CXX_RELAX = ["-Wno-old-style-cast"]  # verification/CMakeLists.txt: C headers in C++ tests
 
 CONTROL = {"files": {"ctl/Ctl.1.0.dsdl": "uint8 a\n@sealed\n"}, "roots": ["ctl"], "lookup": {}}
@@ -143,7 +146,7 @@ def compile_modes(cfg: Cfg, thorough: bool) -> typing.List[typing.Tuple[str, str
         if thorough:
             m += [
                 ("c_compile", "clang", ["clang", "-std=c11", "-fsyntax-only"] + cc + ["-x", "c"]),
-                ("c_in_cxx_compile", "clang", ["clang++", "-std=c++14", "-fsyntax-only"] + cc + ["-x", "c++"]),
+                ("c_in_cxx_compile", "clang", ["clang++", "-std=c++14", "-fsyntax-only"] + CLANG_LIMITS + cc + ["-x", "c++"]),
             ]
         return m
     if cfg.lang == "cpp":
@@ -152,7 +155,7 @@ def compile_modes(cfg: Cfg, thorough: bool) -> typing.List[typing.Tuple[str, str
         flag = "-std=" + cfg.std.replace("-pmr", "")
         m = [("cpp_compile", "gcc", ["g++", flag, "-fsyntax-only"] + cxx + ["-x", "c++"])]
         if thorough:
-            m.append(("cpp_compile", "clang", ["clang++", flag, "-fsyntax-only"] + cxx + ["-x", "c++"]))
+            m.append(("cpp_compile", "clang", ["clang++", flag, "-fsyntax-only"] + CLANG_LIMITS + cxx + ["-x", "c++"]))
         return m
     return []
 
@@ -752,7 +755,12 @@ def run(ctx: Ctx) -> int:
     cfgs = all_cfgs()
     items: typing.List[typing.Tuple[int, typing.List[typing.Tuple[str, str, str]]]] = []
     space = 0
+    only = os.environ.get("VERIF_ONLY_CASES")  # debugging aid: regex on the case id (evidence then reports exhaustive=False via a cap)
+    if only:
+        ctx.cap(f"VERIF_ONLY_CASES={only}")
     for i, c in enumerate(cases):
+        if only and not re.search(only, c["id"]):
+            continue
         per_lang: typing.Dict[typing.Tuple[str, str], typing.List[typing.Tuple[str, str, str]]] = {}
         for cfg in cfgs:
             if cfg.lang not in c.get("langs", ["c", "cpp", "py"]):
@@ -816,6 +824,9 @@ def run(ctx: Ctx) -> int:
             sig["compiler"] = ",".join(sorted(comps))
         rep = min(fs, key=lambda f: (f.compiler != "gcc", len(str(f.case)), f.cfg.std, f.name))
         names = sorted({f.name for f in fs if f.name})
+        wflags = {m.group(1).split(",")[-1] for f in fs for m in [re.search(r"\[(-W[^\]]+)\]", f.what)] if m}
+        if len(wflags) == 1 and all(re.search(r"\[(-W[^\]]+)\]", f.what) for f in fs):
+            sig["diag"] = wflags.pop()  # the one warning class every member of the group fails with
         reps.append((sig, rep, len(names) or 1, names))
     checks = ctx.pool_map(_recheck, [rep for _, rep, _, _ in reps])
     by_feature: typing.Dict[str, typing.List[str]] = {}
@@ -832,9 +843,9 @@ def run(ctx: Ctx) -> int:
     if ctx.thorough:
         required |= {"cpp_pmr", "cpp_cetl"}
     missing = sorted(required - markers)
-    if missing:
+    if missing and not only:
         raise HarnessError(f"vacuous exploration: generated text never showed {missing}")
-    for k in ("generation:ok", "c_compile:gcc:clean", "c_in_cxx_compile:gcc:clean", "cpp_compile:gcc:clean", "py_syntax:clean", "py_import:clean"):
+    for k in () if only else ("generation:ok", "c_compile:gcc:clean", "c_in_cxx_compile:gcc:clean", "cpp_compile:gcc:clean", "py_syntax:clean", "py_import:clean"):
         if k not in outcomes:
             raise HarnessError(f"vacuous exploration: outcome {k} never observed")
 
@@ -875,7 +886,7 @@ def run(ctx: Ctx) -> int:
         "bound_completed": f"{tot['units']}/{space} (case x language x standard x serialization) units over {len(cases)} namespace cases "
         f"({info['members']} members; names: {info['accepted']['attr']} of {info['alphabet_raw']} accepted by PyDSDL x 8 attribute kinds + type + nested + root position); "
         + ("gcc 12 and clang 14" if ctx.thorough else "gcc 12; core = every case (except type/namespace-name batches made of Python builtins only) x {C, C++14, Python} with serialization enabled + all configurations of the core_all cases; + seed slice 1/16 of the rest"),
-        "exhaustive": bool(ctx.thorough),
+        "exhaustive": bool(ctx.thorough) and not ctx.caps,
     }
     return ctx.finish(
         "exploration",
